@@ -8,7 +8,7 @@ WT=/tmp/wt/benign_eval_$$
 git -C /repo worktree add -q --detach $WT HEAD || exit 3
 trap 'git -C /repo worktree remove --force $WT 2>/dev/null' EXIT
 cd $WT
-git apply "$PATCH" || { echo PATCH-DOES-NOT-APPLY; exit 3; }
+git apply "$PATCH" 2>/dev/null || git apply -3 "$PATCH" || { echo PATCH-DOES-NOT-APPLY; exit 3; }; git reset -q 2>/dev/null
 echo "suite: $(go test -vet=off -count=1 ./... 2>&1 | tail -1)"
 git checkout -q go.sum 2>/dev/null
 cd /verif
